@@ -351,7 +351,7 @@ func init() {
 		Assumptions: []string{"a node reachable from another tree version is persisted (persisted == true and hash != nil): GetNode/SaveNode are the only places that publish nodes to the cache (checked by R01d)"},
 		Rules: []core.Rule{
 			rule("R01a", "copy-on-write: no in-place store to a shared node", 30, checkCopyOnWrite),
-			rule("R01b", "children are saved before their parent; one commit after the subtree", 5, func(r *Run) {
+			rule("R01b", "children are saved before their parent; one commit after the subtree", 4, func(r *Run) {
 				sv := mdbN + "save"
 				childDone := func(side string) []core.CondGuard {
 					return []core.CondGuard{core.RelGuard(core.Fact(side+"-child-saved"), core.IsObj(mdb+"Node."+side+"Node"), token.EQL, func(c *core.Ctx, e ast.Expr) bool { return isNilLit(c, e) })}
